@@ -249,6 +249,7 @@ func ReadFromSTL(i io.Reader, opts STLOptions) (o *Subtitles, err error) {
 
 		// Parse TTI block
 		var t = parseTTIBlock(b, g.framerate)
+		verifEmit("stl.tti", i, len(o.Items), t.extensionBlockNumber)
 
 		// Do not process reserved user data
 		if t.extensionBlockNumber == extensionBlockNumberReservedUserData {
